@@ -430,6 +430,49 @@ def named_backups_check(rec, bm_mod, root, depth):
             rec.outcome("named-history")
 
 
+def bids_named_check(rec, bm_mod, run_remodel, root):
+    """Files named the BIDS way (task-go): `remodel -t go` works on them from their backed-up originals, also when the
+    operations change nothing in a file - an edit made after the backup does not survive the run - and leaves the files of
+    other tasks alone.  Histories: every subset of {edit go file, edit stop file, run once more}."""
+    files = {"sub-01/sub-01_task-go_events.tsv": "onset\tduration\tkind\n1.0\t0.5\ta\n",            # no 'code': a no-op
+             "sub-01/sub-01_task-go_run-2_events.tsv": TSV["a"],
+             "sub-01/sub-01_task-stop_events.tsv": TSV["b"]}
+    model_path = os.path.join(root, "..", os.path.basename(root) + "_model.json")
+    for edits in itertools.product((False, True), repeat=3):
+        for twice in (False, True):
+            if os.path.exists(root):
+                shutil.rmtree(root)
+            for rel, text in files.items():
+                os.makedirs(os.path.dirname(os.path.join(root, rel)), exist_ok=True)
+                with open(os.path.join(root, rel), "w") as f:
+                    f.write(text)
+            with open(model_path, "w") as f:
+                json.dump(MODEL_OPS, f)
+            rec.n("evaluations")
+            rec.n("transitions", 2 + sum(edits) + twice)
+            rec.n("distinct_nontrivial")
+            where = {"edited_after_backup": [r for r, e in zip(files, edits) if e], "run_twice": twice}
+            try:
+                bm_mod.BackupManager(root).create_backup([os.path.join(root, r) for r in files], backup_name="default_back")
+                expected = {}
+                for (rel, text), edit in zip(files.items(), edits):
+                    if edit:
+                        with open(os.path.join(root, rel), "a") as f:
+                            f.write("9.0\t9.0\t9\n")
+                    expected[rel] = remodeled(text) if "task-go" in rel else text + ("9.0\t9.0\t9\n" if edit else "")
+                for _ in range(2 if twice else 1):
+                    run_remodel.main([root, model_path, "-x", "derivatives", "-ns", "-t", "go"])
+            except BaseException as e:
+                rec.violation(f"C18:bids-names:raises:{type(e).__name__}", error=repr(e)[:300], **where)
+                continue
+            actual = {k: v.decode() for k, v in fsseam.tree_bytes(root).items() if not k.startswith("derivatives")}
+            if actual != expected:
+                diff = sorted(k for k in set(actual) | set(expected) if actual.get(k) != expected.get(k))
+                rec.violation("C18:bids-names:task-filtered-remodel:data-files-differ-from-model", differing=diff,
+                              actual={k: actual.get(k) for k in diff}, expected={k: expected.get(k) for k in diff}, **where)
+            rec.outcome("bids-names")
+
+
 def worker_hist(rec, shard, nshards, scratch, depth, seed):
     import contextlib
     import io
@@ -451,6 +494,9 @@ def worker_hist(rec, shard, nshards, scratch, depth, seed):
     if shard == 1 % nshards:
         with contextlib.redirect_stdout(io.StringIO()):
             named_backups_check(rec, bm_mod, os.path.join(scratch, "named"), 4 if depth > 3 else 3)
+    if shard == 2 % nshards:
+        with contextlib.redirect_stdout(io.StringIO()):
+            bids_named_check(rec, bm_mod, run_remodel, os.path.join(scratch, "bidsnames"))
     # the task filter looks at file names only: a data root whose own name mentions a task must behave the same
     root_task = os.path.join(scratch, f"h{shard}_task_stop_pilot")
     for ci in core.shard_order(len(cases), shard, nshards, seed):
